@@ -162,13 +162,13 @@ func (g *Group) msmEvent(t *TraceWriter, rc *recipe, points, scalars reflect.Val
 	ok := withWatchdog(msmWatchdog, func() {
 		switch variant {
 		case "MultiExp.jac":
-			recv = g.NewJac()
+			recv = g.usedJac()
 			out, pm, pk = call(method(recv, "MultiExp"), points, scalars, cfg)
 		case "MultiExp.aff":
-			recv = g.NewAff()
+			recv = g.usedAff()
 			out, pm, pk = call(method(recv, "MultiExp"), points, scalars, cfg)
 		case "inner":
-			recv = g.NewJac()
+			recv = g.usedJac()
 			fn := g.C.shim("fn._innerMsm" + g.G)
 			out, pm, pk = call(fn, recv, reflect.ValueOf(uint64(c)), points, scalars, cfg)
 		}
@@ -197,6 +197,14 @@ func (g *Group) msmEvent(t *TraceWriter, rc *recipe, points, scalars reflect.Val
 	t.Emit(e)
 }
 
+// receivers that already hold a point (an empty sum must still come out as the point at infinity)
+func (g *Group) usedAff() reflect.Value { return g.MulGen(big.NewInt(5)) }
+func (g *Group) usedJac() reflect.Value {
+	j := g.NewJac()
+	method(j, "FromAffine").Call([]reflect.Value{g.MulGen(big.NewInt(5))})
+	return j
+}
+
 func (g *Group) foldEvent(t *TraceWriter, rc *recipe, points reflect.Value, coeff *big.Int, nbTasks int) {
 	fr := g.C.Fr
 	e := recipeEv(rc)
@@ -205,7 +213,7 @@ func (g *Group) foldEvent(t *TraceWriter, rc *recipe, points reflect.Value, coef
 	e["nbTasks"] = nbTasks
 	e["coeff"] = digits(coeff)
 	e["npoints"] = points.Len()
-	recv := g.NewJac()
+	recv := g.usedJac()
 	cf := fr.NewRaw(fr.ToMont(coeff))
 	out, pm, pk := call(method(recv, "Fold"), points, cf.Elem(), reflect.ValueOf(ecc.MultiExpConfig{NbTasks: nbTasks}))
 	if pk {
